@@ -23,6 +23,18 @@ def kvMembers (sep : UInt8) : Nat → Bytes → List Bytes
 
 def members (sep : UInt8) (s : Bytes) : List Bytes := kvMembers sep s.length s
 
+/-- the trimmed list members including the empty ones (`ignore_empty_members = false`: `next` reports an empty member
+    as a valid pair of two empty strings).  A separator that ends the string does not start another member. -/
+def kvMembersAll (sep : UInt8) : Nat → Bytes → List Bytes
+  | 0, _ => []
+  | _, [] => []
+  | fuel + 1, s =>
+    match takeTok sep s with
+    | (tok, none) => [trim tok]
+    | (tok, some rest) => trim tok :: kvMembersAll sep fuel rest
+
+def membersAll (sep : UInt8) (s : Bytes) : List Bytes := kvMembersAll sep s.length s
+
 /-- key / value of a list member: split at the first `kvsep`; `none` = "invalid member" (`valid_kv = false`) -/
 def splitKv (kvsep : UInt8) (m : Bytes) : Option (Bytes × Bytes) :=
   match takeTok kvsep m with
